@@ -417,12 +417,14 @@ class ModuleFinder:
     def _top_module_name(self, path: Path) -> str:
         # First find if a parent is in search paths.
         parent_path = path if path.is_dir() else path.parent
-        # Always resolve parent path to compare for relativeness against resolved search paths.
-        parent_path = parent_path.resolve()
-        for search_path in self.search_paths:
-            with suppress(ValueError, IndexError):
-                rel_path = parent_path.relative_to(search_path.resolve())
-                return rel_path.parts[0]
+        # Compare the path as written first (a package directory can be a symbolic link:
+        # the package is named after the link), then resolved, against resolved search paths.
+        for candidate in (Path(os.path.abspath(parent_path)), parent_path.resolve()):  # noqa: PTH100
+            for search_path in self.search_paths:
+                for directory in (Path(os.path.abspath(search_path)), search_path.resolve()):  # noqa: PTH100
+                    with suppress(ValueError, IndexError):
+                        return candidate.relative_to(directory).parts[0]
+        parent_path = Path(os.path.abspath(parent_path))  # noqa: PTH100
         # If not, get the highest directory with an `__init__` module,
         # add its parent to search paths and return it.
         while parent_path.parent != parent_path and (parent_path.parent / "__init__.py").exists():
